@@ -24,6 +24,8 @@ type caseC05 struct {
 	Env     model.Env
 	Cmd     model.Cmd
 	ViaMain bool `json:",omitempty"` // through klog's real entry point (flag parsing, exit code mapping, real clock)
+	// NoExclusions disables the exclusion predicate of known finding F3; only set in its witness.
+	NoExclusions bool `json:",omitempty"`
 }
 
 var badEntryTexts = [][]string{{"hello"}, {"25:00-26:00"}, {"1h60m"}, {" 1h"}, {"\t1h"}, {"2020-01-01"}, {"8:00 - ?"}, {"9:00-8:00"}, {"1h", " "},
@@ -83,6 +85,12 @@ func checkC05(c caseC05) (Outcome, error) {
 	text := string(c.Text)
 	if hasUnrepresentableDuration(text) {
 		out.Label("excluded:F2-unrepresentable-duration-literal")
+		return out, nil
+	}
+	if recs, _, errs := parser.NewSerialParser().Parse(text); errs == nil && sumOverflows(recs) && !c.NoExclusions {
+		// known finding F3: evaluating such a file panics (pinned by klog's own tests); the
+		// warnings, which klog computes after the write, evaluate it
+		out.Label("excluded:F3-total-beyond-int64")
 		return out, nil
 	}
 	h := newHarness(envTime(c.Env), envConfig(c.Env, ""))
